@@ -212,3 +212,34 @@ Qed.
 
 Lemma model_meets_spec i len : wf_input i -> Spec i (model i len).
 Proof. intros H. apply spec_b_sound. apply model_meets_oracle. exact H. Qed.
+
+(* ---------- the body length is the model's own (no oracle) ---------- *)
+
+Lemma predicted_len_operation i g : operation i = Some g -> predicted_len i = body_length g.
+Proof. unfold operation, opts_of, predicted_len. intros ->. reflexivity. Qed.
+
+Lemma content_length_is_body_length i g :
+  operation i = Some g -> o_method (opts_of i) = TPost ->
+  exists s, model_len i = Sent s /\
+    s_method s = "POST"%string /\ s_body s = Some (body_json g) /\
+    s_body_len s = body_length g /\ s_clen s = body_length g /\
+    s_clen_hdr s = [dec_Z (body_length g)] /\
+    model_body i = Some (bs (encode_body g)).
+Proof.
+  intros Hg Hm. unfold model_len. rewrite (predicted_len_operation i g Hg).
+  destruct (post_transport i (body_length g) g Hg Hm) as [s [Hs [H1 [H2 [H3 [H4 [H5 _]]]]]]].
+  exists s. repeat split; try assumption.
+  unfold model_body. unfold operation, opts_of in Hg, Hm. rewrite Hg, Hm. reflexivity.
+Qed.
+
+Lemma model_len_meets_oracle i : wf_input i -> spec_b i (model_len i) = true.
+Proof. intros H. apply model_meets_oracle. exact H. Qed.
+
+Lemma model_len_meets_spec i : wf_input i -> Spec i (model_len i).
+Proof. intros H. apply model_meets_spec. exact H. Qed.
+
+(* concurrent_calls > 1 puts the concurrent stage in front: every attempt runs the rest of the
+   stack on its own copy, and what each of them sends is what a single call sends *)
+Lemma concurrent_stage_transparent i len :
+  model_on (exec_stack true) i len = model_on (exec_stack false) i len.
+Proof. reflexivity. Qed.
